@@ -109,6 +109,7 @@ Exp10(u) == CASE u = "mm" -> -3 [] u = "cm" -> -2 [] u = "m" -> 0 [] u = "km" ->
 UnitVerdict(c, o) ==       \* c = [from, to]; o = [out, unit, k10, pi, stats_follow]  (values multiplied by 10^k10 * (180/pi)^pi)
   \* statistics taken before AND after the conversion: afterwards they are the statistics of the converted values
   IF ~o.stats_follow THEN "StatisticsNotOfTheConvertedValues"
+  ELSE IF "zout" \in DOMAIN o /\ (o.zout # o.out \/ o.zunit # o.unit) THEN "AllZeroValuesTreatedDifferently"
   ELSE IF c.from = c.to THEN (IF o.out = "ok" /\ o.unit = c.to /\ o.k10 = 0 /\ o.pi = 0 THEN "ok" ELSE "SameUnitNotANoOp")
   ELSE IF c.from \in Lengths /\ c.to \in Lengths THEN
          (IF o.out = "ok" /\ o.unit = c.to /\ o.k10 = Exp10(c.from) - Exp10(c.to) /\ o.pi = 0 THEN "ok" ELSE "WrongLengthConversion")
